@@ -250,13 +250,12 @@ End Probes.
    port 1; the voltage at port 2 is proportional to the applied voltage, the
    factor being what the probe reads with the unit source *)
 Theorem probe_transfer kd (N : netlist) pa ma pb mb f vt ibt :
-  (forall v ib, phys (m_apply_test_voltage true kd N pa ma f ) v ib -> True) ->
   (* determined: with the test source at 0 V, port 2 sees 0 V *)
   (forall v ib, phys (killnet N ++ [m_short kd pa ma f]) v ib -> pv pb mb v = f0) ->
   phys (m_apply_test_voltage true kd N pa ma f) vt ibt ->
   forall a v ib, phys (killnet N ++ [(cV, ctx2 kd pa ma f a f0 f0)]) v ib -> pv pb mb v = fmul (pv pb mb vt) a.
 Proof.
-  intros _ D St a v ib S.
+  intros D St a v ib S.
   assert (H : phys (killnet N ++ [m_short kd pa ma f]) (vadd v (vscal (fopp a) vt)) (vadd ib (vscal (fopp a) ibt))).
   { destruct St as [At Bt]. destruct S as [A B]. unfold m_apply_test_voltage, m_test_V, m_short in *. split; intros x Hx.
     - specialize (At x Hx). specialize (A x Hx). rewrite kcl_app, kcl_V in *. rewrite (proj1 (m_kill_spec N vt ibt x)) in At.
